@@ -87,6 +87,9 @@ type Prog struct {
 	Name  string
 	Pre   []Op
 	Tasks [][]Op
+	// MidPoint: every handler body has a scheduling point (a publisher can be parked inside
+	// a handler while the other tasks run)
+	MidPoint bool
 }
 
 func (p *Prog) String() string {
@@ -159,7 +162,7 @@ type Inst struct {
 	raceCancel context.CancelFunc
 }
 
-func New(p *Prog) *Inst { return &Inst{P: p} }
+func New(p *Prog) *Inst { return &Inst{P: p, MidPoint: p.MidPoint} }
 
 func evID(opID int, odd bool) int {
 	if odd {
